@@ -465,6 +465,7 @@ Print Assumptions C02_tie_EV_load_in_cache_unauthenticated_shape.
    block list (ComposeWriterRun.clean_run_blocks gives it for the calls before finalize).
    ==================================================================================== *)
 From MLA Require Import Format Ecies Archive ArchiveProofs HeaderStream ArchiveSrc ArchiveSrcRepair.
+From MLA Require RepairSize2Archive.
 
 Theorem C02_archive_cut_sound :
   forall CHUNK TAG CIPHERBUF LIMIT FNMAX CACHE : N, FNMAX < 2 ^ 64 -> 0 < CACHE ->
@@ -499,16 +500,19 @@ Theorem C02_archive_cut_sound :
   forall (n : N) (S0 : Stream) (R0 : st S0 -> N -> Prop) (s0 : st S0) (unauth : bool) (fuel : nat),
   Refines S0 (takeN n (ser_header (to_persistent pubk dh kdf wenc wtag cfg) ++ wire)) R0 -> R0 s0 0 ->
   (N.to_nat (len (body TS TC TA TE bl ++ trailer) + TAG) < fuel)%nat ->
+  (* SIZE PREMISE (instead of "finalize of the repaired archive did not fail with SerializationError" in the
+     second half): on the bytes the source delivers — the cut archive, header included.  RepairSize.repair_footer_fits:
+     the footer of the repaired archive takes at most 8 + 3 * (input bytes) bytes; for LIMIT = BINCODE_MAX_DESERIALIZE =
+     536870912 the premise holds for every input of at most 178956968 bytes (~170 MiB) *)
+  8 + 3 * len (takeN n (ser_header (to_persistent pubk dh kdf wenc wtag cfg) ++ wire)) <= N.min LIMIT (2 ^ 32 - 1) ->
   let r := failsafe_repair CHUNK TAG LIMIT FNMAX CACHE TS TC TA TE H dh kdf wdec wtag ksf tagf S0
              FsCompOver fscomp_open s0 privs unauth fuel in
   (n < len (ser_header (to_persistent pubk dh kdf wenc wtag cfg)) ->
      r = Err (if n <? 7 then EUnexpectedEof else EDeser)) /\
   (len (ser_header (to_persistent pubk dh kdf wenc wtag cfg)) <= n ->
      TagCollision pubk dh kdf wenc wtag (wc_eph cfg) (wc_key cfg) (wc_recipients cfg) privs \/
-     (* finalize of the repaired archive did not fail with SerializationError (footer within
-        LIMIT = BINCODE_MAX_DESERIALIZE and the u32 length field) *)
-     (r <> Err EDeser -> repair_sound_concl (LIM := LIMIT) FNMAX TS TC TA TE H bl r)).
-Proof. exact archive_cut_sound. Qed.
+     repair_sound_concl (LIM := LIMIT) FNMAX TS TC TA TE H bl r).
+Proof. exact RepairSize2Archive.archive_cut_sound_size. Qed.
 
 (* what archive_write produces without compression is of that shape *)
 Theorem C02_archive_write_shape :
@@ -549,10 +553,13 @@ Example C02_archive_example :
   (exists unfinished out, ax_run 146 = Ok (FEofNextBlock, unfinished, out) /\ w_final out = true).
 Proof.
   split; [reflexivity|].
+  (* the size premise, for every cut: 8 + 3 * min n 194 <= min 1000 (2^32 - 1) *)
+  assert (Hfit : forall n, 8 + 3 * len (takeN n ax_arch) <= N.min 1000 (2 ^ 32 - 1)).
+  { intros n. rewrite len_takeN. change (len ax_arch) with 194. lia. }
   assert (Hall : forall n,
     (n < 9 -> ax_run n = Err (if n <? 7 then EUnexpectedEof else EDeser)) /\
     (9 <= n -> TagCollision (fun x => x) ax_dummy2 (fun x => x) ax_dummy2 ax_dummy2 [] [] [] [] \/
-               (ax_run n <> Err EDeser -> repair_sound_concl (LIM := 1000) 48 0 1 254 255 ex_H ex_bl (ax_run n)))).
+               repair_sound_concl (LIM := 1000) 48 0 1 254 255 ex_H ex_bl (ax_run n))).
   { intros n.
     exact (C02_archive_cut_sound 64 16 8 1000 48 4 ltac:(lia) ltac:(lia) 0 1 254 255
              ltac:(repeat split; discriminate) ex_H ex_H_len ltac:(lia) ltac:(lia)
@@ -560,11 +567,11 @@ Proof.
              ltac:(reflexivity) (fun I => I) (fun I i => Ok i) ax_cfg eq_refl I ltac:(vm_compute; discriminate)
              ex_bl ex_trailer C02_example_wf (or_introl ex_bl_end) ex_stream eq_refl [] []
              ltac:(discriminate) n (Throttled (takeN n ax_arch)) _ (0, [2]) false 300%nat
-             (throttled_refines _) ltac:(split; [reflexivity | apply N.le_0_l]) ltac:(vm_compute; lia)). }
+             (throttled_refines _) ltac:(split; [reflexivity | apply N.le_0_l]) ltac:(vm_compute; lia) (Hfit n)). }
   split; [exact (proj1 (Hall 5) ltac:(lia))|]. split; [exact (proj1 (Hall 8) ltac:(lia))|].
   destruct (proj2 (Hall 146) ltac:(lia)) as [Ht|Hc].
   - destruct Ht as (r & p & Hin & _). destruct Hin.
-  - destruct (Hc ltac:(vm_compute; discriminate)) as (status & unf & out & obl & Hr & (Hfin & _) & _).
+  - destruct Hc as (status & unf & out & obl & Hr & (Hfin & _) & _).
     assert (Hs : status = FEofNextBlock).
     { assert (Hv : match ax_run 146 with Ok (s, _, _) => s = FEofNextBlock | _ => False end) by (vm_compute; reflexivity).
       rewrite Hr in Hv. exact Hv. }
